@@ -695,8 +695,20 @@ def list_attr(interp, lst, name):
 
     def copy(it, args, kw):
         return it.new_list(lst.items)
+    def set_update(it, args, kw):
+        # a set of concrete hashable items is a heap list without duplicates
+        for x in it.iterate(args[0]):
+            if is_sym(x):
+                raise OutsideSubset("symbolic item in a set")
+            if not any((not is_sym(y)) and y == x for y in lst.items):
+                lst.items.append(x)
+
+    def set_add(it, args, kw):
+        set_update(it, [[args[0]]], kw)
     table = {"append": append, "extend": extend, "pop": pop, "index": index,
              "insert": insert, "copy": copy}
+    if getattr(lst, "is_set", False):
+        table = {"update": set_update, "add": set_add, "copy": copy}
     if name in table:
         return LibMethod(table[name], "list." + name)
     raise OutsideSubset("list attribute %s" % name)
@@ -1271,6 +1283,18 @@ def install(interp):
     m[zip] = builtin_zip
     m[range] = builtin_range
     m[slice] = lambda it, args, kw: slice(*args)
+
+    def builtin_set(it, args, kw):
+        out = it.new_list([])
+        out.is_set = True
+        if args:
+            for x in it.iterate(args[0]):
+                if is_sym(x):
+                    raise OutsideSubset("symbolic item in a set")
+                if x not in out.items:
+                    out.items.append(x)
+        return out
+    m[set] = builtin_set
     m[abs] = builtin_abs
     m[min] = builtin_minmax("min")
     m[max] = builtin_minmax("max")
